@@ -5538,6 +5538,7 @@ impl BytecodeVM {
                                 | JsFunction::PromiseAllReject(_)
                                 | JsFunction::PromiseRaceSettle { .. }
                                 | JsFunction::PromiseAllSettledSettle { .. }
+                                | JsFunction::PromiseAnySettle { .. }
                                 | JsFunction::AccessorGetter
                                 | JsFunction::AccessorSetter
                                 | JsFunction::ModuleExportGetter { .. }
